@@ -5,6 +5,11 @@
 //! Semantics are those of a set / map; iteration order is insertion order — one of the orders std could produce.
 use std::borrow::Borrow;
 
+// The repository's hook imports this module by glob (`use crate::verif_collections::*;`), so that a change which
+// widens a `use std::collections::{..}` line (a new HashMap memo, a BTreeMap, a VecDeque) still compiles in the solver
+// build: everything that is not replaced by a stand-in is std's own.
+pub use std::collections::{btree_map, btree_set, BTreeMap, BTreeSet, BinaryHeap, LinkedList, VecDeque};
+
 #[derive(Clone, Debug)]
 pub struct HashSet<T> { items: Vec<T> }
 impl<T> Default for HashSet<T> { fn default() -> Self { HashSet { items: Vec::with_capacity(8) } } }
